@@ -1061,6 +1061,9 @@ class RZILTransformer(Transformer):
             return items[0]
         p: Pure = items[1]
         e: Effect = items[0]
+        if p.value_type.group & VTGroup.BOOL:
+            # The value of the expression is the integer 0 or 1. The temporary holds no boolean.
+            p = self.promotion_cast(p)
         return self.resolve_hybrid(
             self.add_op(GCCStmtDeclExpr("gcc_expr", e, p, p.value_type))
         )
